@@ -373,7 +373,9 @@ func (x *VC) evBin(e *SExpr, env *SEnv) *Val {
 	// specification arithmetic never generates overflow obligations: in math mode it is mathematical
 	saved := x.noOvf
 	x.noOvf = true
+	x.specArith++
 	r := x.binop(tok, a, b, opT, resT, "true", "")
+	x.specArith--
 	x.noOvf = saved
 	return r
 }
@@ -711,6 +713,73 @@ func (x *VC) evCall(e *SExpr, env *SEnv) *Val {
 			r := x.convert(v, v.GT, to, "true", "", env.cur)
 			x.noOvf = saved
 			return r
+		}
+		if fd, ok := x.eng.db.Funcs[name]; ok {
+			if len(fd.Params) != len(args) {
+				x.specFail(e, "function %s expects %d arguments", name, len(fd.Params))
+			}
+			fpkg := x.eng.pkgByPath(fd.Pkg)
+			if fpkg == nil {
+				fpkg = env.pkg
+			}
+			var sorts, ts []string
+			for i, prm := range fd.Params {
+				v := x.ev(args[i], env)
+				var ps string
+				switch prm.Type {
+				case "int":
+					ps = x.idxSort()
+				case "mathint":
+					ps = "Int"
+				case "ref":
+					ps = "Int"
+				default:
+					ps = x.sortOf(x.resolveType(prm.Type, fpkg))
+				}
+				if v.Lit != nil {
+					if ps == "Int" {
+						v = &Val{K: KScalar, T: x.mathLit(v.Lit), S: "Int"}
+					} else {
+						v = &Val{K: KScalar, T: x.ilit(v.Lit.Int64()), S: ps}
+					}
+				}
+				sorts = append(sorts, ps)
+				ts = append(ts, v.T)
+			}
+			var rs string
+			var rt types.Type
+			switch fd.Sort {
+			case "bool":
+				rs = "Bool"
+				rt = types.Typ[types.Bool]
+			case "mathint":
+				rs = "Int"
+				rt = types.Typ[types.UntypedInt]
+			case "int":
+				rs = x.idxSort()
+				rt = tInt
+			case "ref":
+				rs = "Int"
+			case "string":
+				rs = "String"
+				rt = types.Typ[types.String]
+			default:
+				rt = x.resolveType(fd.Sort, fpkg)
+				rs = x.sortOf(rt)
+			}
+			fname := "uf_" + name
+			if !x.externs["decl:"+fname] {
+				x.externs["decl:"+fname] = true
+				decl := fmt.Sprintf("(declare-fun %s (%s) %s)", fname, strings.Join(sorts, " "), rs)
+				x.script = append([]string{decl}, x.script...)
+				for _, o := range x.obls {
+					o.Prefix++
+				}
+			}
+			if len(ts) == 0 {
+				return &Val{K: KScalar, T: fname, S: rs, GT: rt}
+			}
+			return &Val{K: KScalar, T: "(" + fname + " " + strings.Join(ts, " ") + ")", S: rs, GT: rt}
 		}
 		if p, ok := x.eng.db.Preds[name]; ok {
 			if len(p.Params) != len(args) {
